@@ -152,10 +152,15 @@ def W.setPhase (s : W) (i : Nat) (p : ConnPhase) : List Conn :=
   s.conns.map (fun c => if c.id = i then { c with phase := p } else c)
 def W.dropConn (s : W) (i : Nat) : List Conn := s.conns.filter (fun c => c.id != i)
 
+/-- what a peer sees of a handler that is cancelled: on runtimes where the cancelled handler still closes its streams
+    (`h2CancelSaysGoaway`) an HTTP/2 connection with a stream in progress says GOAWAY first -/
+def W.cancelEvents (s : W) (c : Conn) : List Ev :=
+  if s.rt.h2CancelSaysGoaway && c.phase.h2Busy then [Ev.goaway c.id, Ev.cancelled c.id] else [Ev.cancelled c.id]
+
 /-- every remaining handler is cancelled -/
 def W.cancelAll (s : W) : W :=
   { s with hist := { s.hist with cancelled := s.hist.cancelled ++ s.conns.map (fun c => (c.id, c.phase, s.now)) },
-           conns := [], log := s.log ++ s.conns.map (fun c => Ev.cancelled c.id) }
+           conns := [], log := s.log ++ s.conns.flatMap s.cancelEvents }
 
 /-- `worker_serve` raises `e` (whatever is still running inside it is cancelled) -/
 def W.fail (s : W) (e : ServeErr) : W :=
